@@ -4,7 +4,7 @@ set -u
 PATCH=$1; PROP=$2; TIER=${3:-quick}
 WT=/tmp/wt_try
 if [ ! -d $WT ]; then git -C /repo worktree add -q --detach $WT HEAD; fi
-git -C $WT checkout -q --detach $(git -C /repo rev-parse HEAD) 2>/dev/null
+git -C $WT checkout -q --detach ${BASE:-$(git -C /repo rev-parse HEAD)} 2>/dev/null
 git -C $WT checkout -q -- . ; git -C $WT clean -fdq
 git -C $WT apply "$PATCH" || { echo "PATCH DOES NOT APPLY"; exit 9; }
 cd /verif && VERIF_REPO=$WT /venv/bin/python -m pstat check $PROP --tier $TIER | sed "s#^#[$PROP] #"
